@@ -49,7 +49,7 @@ def canon_sets(text, sample):
     return out, tags
 
 
-def check_roundtrip(text, out_path, trace, only_snvs, counters, doc):
+def check_roundtrip(text, out_path, trace, only_snvs, counters, doc, targets=None):
     """Trace of the writer vs. decoders vs. whatshap's reader."""
     viol = []
     meta, samples, recs = vcftext.parse(text)
@@ -60,7 +60,8 @@ def check_roundtrip(text, out_path, trace, only_snvs, counters, doc):
             for pos, al in w["phases"][s].items():
                 if pos in w["components"][s] and al[0] in (0, 1) and al[1] in (0, 1):
                     written[(s, w["chromosome"], pos + 1)] = (w["components"][s][pos] + 1, (str(al[0]), str(al[1])))
-    targets = {s for w in trace["vcf_writes"] for s in w["samples"]}
+    # the samples the run was asked to phase, whether or not the writer was handed anything for them
+    targets = set(targets) if targets is not None else {s for w in trace["vcf_writes"] for s in w["samples"]}
     seen_pos = set()
     for r in recs:
         first = (r["chrom"], r["pos"]) not in seen_pos
@@ -147,7 +148,7 @@ def stratum_pair(rng, tmp, counters):
             return [pipeline.crash_violation(msg)], False, desc
         text = open(out).read()
         outs[tag] = text
-        for v in check_roundtrip(text, out, trace, only_snvs, counters, sim.doc):
+        for v in check_roundtrip(text, out, trace, only_snvs, counters, sim.doc, targets=p["samples"]):
             v["msg"] = "[--tag %s] " % tag + v["msg"]
             if p["unsorted_gt"] and tag == "HP" and v["mech"] in ("decode-differs-from-written", "reader-differs-from-written"):
                 v["mech"] += ":hp-relative-to-unsorted-gt"
@@ -227,6 +228,11 @@ def stratum_history(rng, tmp, counters):
     p = {"n_chrom": 1, "chrom_len": 2500, "n_var": rng.randint(5, 15), "kinds": rng.choice([["snv"], ["snv", "ins", "del"]]),
          "samples": ["sample%s" % c for c in "ABC"[:nsamp]], "allow_shiftable": False,
          "depth": rng.choice([3, 8]), "read_len": (150, 600), "end_policy": "clean", "error_rate": 0.0, "het_prob": 0.85}
+    if nsamp > 1 and rng.random() < 0.4:
+        # some target samples have no read at all: their old phase must still not survive a re-phasing run
+        p["read_samples"] = rng.sample(p["samples"], rng.randint(1, nsamp - 1))
+    if rng.random() < 0.3:
+        p["n_chrom"] = 2
     sim = genome.simulate(rng, tmp, p)
     start_prephase = rng.choice([None, None, "PS", "HP"])
     if start_prephase:
@@ -274,8 +280,8 @@ def stratum_history(rng, tmp, counters):
             break
         text = open(out).read()
         counters["history_steps_checked"] = counters.get("history_steps_checked", 0) + 1
-        vs = check_roundtrip(text, out, trace, osnv, counters, sim.doc)
         targets = sel or p["samples"]
+        vs = check_roundtrip(text, out, trace, osnv, counters, sim.doc, targets=targets)
         prev_other = [phased_by[s] for s in targets if s in phased_by and phased_by[s] != st]
         for v in vs:
             if prev_other and v["mech"] in ("stale-or-foreign-phase", "output-mixes-encodings", "decode-differs-from-written", "reader-differs-from-written"):
